@@ -1970,10 +1970,11 @@ class Color(object):
     def hsl(self, value):
         if not isinstance(value, (tuple, list)):
             return
-        h = value[0]
+        h = Angle.degrees(value[0]).as_turns
         s = value[1]
         l = value[2]
-        self.value = Color.hsl_to_int(h, s, l, 1.0)
+        opacity = self.opacity if self.value is not None else 1.0
+        self.value = Color.hsl_to_int(h, s, l, opacity)
 
     def distance_to(self, other):
         return Color.distance(self, other)
